@@ -1,3 +1,4 @@
 pub mod cells;
 pub mod insphere;
+pub mod routes;
 pub mod tess;
